@@ -80,6 +80,9 @@ pub const HARNESSES: &[(&str, fn())] = &[
     ("c07_spawn_abort_join", c07_done::c07_spawn_abort_join),
 ];
 
+#[cfg(all(test, feature = "validate_models"))]
+mod model_validation;
+
 #[cfg(test)]
 mod selftest {
     /// Every harness must pass natively (real dependencies) on a spread of concrete inputs that
